@@ -256,7 +256,53 @@ def p2(e: Engine, rep: Report):
                       reason='list display / loop variable')
 
 
+def p3_module(e: Engine, rep: Report):
+    """Module-wide header discipline of slimta.policy.headers: presence is
+    tested on the Message object (its `in` ignores case, as header names
+    do), and no policy removes or replaces a header that is there."""
+    mod = 'slimta.policy.headers'
+    ntests = 0
+    for f in e.p.functions.values():
+        if f.module.name != mod:
+            continue
+        for n in walk_own(f.node):
+            if isinstance(n, ast.Compare) and len(n.ops) == 1 and \
+                    isinstance(n.ops[0], (ast.In, ast.NotIn)) and \
+                    'headers' in ast.unparse(n.comparators[0]):
+                ntests += 1
+                rep.evaluations += 1
+                c = n.comparators[0]
+                rep.check(isinstance(c, ast.Attribute) and
+                          c.attr == 'headers', 'P3', f.qname,
+                          'header presence tested on the message object',
+                          'presence of a header is tested with `%s`: the '
+                          'comparison is case-sensitive there, so an '
+                          'existing header spelled differently (date: / '
+                          'DATE:) is not seen and a second one is added or '
+                          'the original replaced' % ast.unparse(n),
+                          loc=f.loc(n), reason='`name in <msg>.headers` '
+                          '(case-insensitive Message.__contains__)')
+            dele = isinstance(n, ast.Delete) and any(
+                'headers' in ast.unparse(t) for t in n.targets)
+            repl = isinstance(n, ast.Call) and isinstance(
+                n.func, ast.Attribute) and n.func.attr in (
+                    'replace_header', '__delitem__', 'clear') and \
+                'headers' in ast.unparse(n.func.value)
+            if dele or repl:
+                rep.evaluations += 1
+                rep.bad('P3', f.qname, 'no header is removed: `%s`'
+                        % ' '.join(ast.unparse(n).split())[:50],
+                        'a header policy deletes / replaces headers of the '
+                        'message: what the sender wrote is lost (deletion '
+                        'by name removes every header of that name, in any '
+                        'spelling)', loc=f.loc(n))
+    if ntests < 1:
+        rep.error('anchor vanished: header presence tests in %s (%d < 1)'
+                  % (mod, ntests))
+
+
 def p3(e: Engine, rep: Report):
+    p3_module(e, rep)
     for cls, hdr in (('AddDateHeader', 'date'),
                      ('AddMessageIdHeader', 'message-id')):
         ctx = e.method_ctx('slimta.policy.headers.' + cls, 'apply')
@@ -268,6 +314,9 @@ def p3(e: Engine, rep: Report):
               and isinstance(n.ast.targets[0], ast.Subscript) and
               'headers' in ast.unparse(n.ast.targets[0].value)]
         if not ws:
+            if any(o.status == 'VIOLATED' and o.rule == 'P3'
+                   for o in rep.obls):
+                continue       # reported by the module-wide discipline
             rep.error('anchor vanished: header assignment in ' + where)
         for n in ws:
             rep.evaluations += 1
